@@ -94,6 +94,8 @@ pub struct GenOpts {
     pub handlers: bool,
     pub output: bool,
     pub heap: bool, // boxes / vectors
+    /// sprinkle explicit collection requests `(#%gc-collect)` into expression positions
+    pub gc_points: bool,
     pub max_depth: usize,
     pub top_forms: usize,
     /// ids of known findings whose trigger shapes must not be generated (exclusion by construction)
@@ -102,15 +104,15 @@ pub struct GenOpts {
 
 impl Default for GenOpts {
     fn default() -> Self {
-        GenOpts { errors: true, callcc: true, winds: false, handlers: true, output: true, heap: true, max_depth: 5, top_forms: 8, avoid: vec![] }
+        GenOpts { errors: true, callcc: true, winds: false, handlers: true, output: true, heap: true, gc_points: false, max_depth: 5, top_forms: 8, avoid: vec![] }
     }
 }
 
 pub struct Gen<'c> {
     pub c: Chooser<'c>,
     pub opts: GenOpts,
-    scope: Vec<VarInfo>,
-    fresh: usize,
+    pub scope: Vec<VarInfo>,
+    pub fresh: usize,
     /// static features of the generated program (for the non-triviality rule)
     pub feats: std::collections::BTreeSet<&'static str>,
     /// known-finding ids whose trigger shape was about to be generated and was replaced
@@ -208,6 +210,17 @@ impl<'c> Gen<'c> {
     // expressions by type.  `pure_` = must have no side effects and read only immutable vars.
 
     pub fn int(&mut self, d: usize, pure_: bool) -> Expr {
+        if self.opts.gc_points && d > 0 && self.c.chance(1, 12) {
+            // a collection request in the middle of an expression: whatever is live right
+            // now lives only on the operand stack / in enclosing frames
+            self.feat("gc-point");
+            let e = self.int_inner(d, pure_);
+            return begin(vec![app("#%gc-collect", vec![]), e]);
+        }
+        self.int_inner(d, pure_)
+    }
+
+    fn int_inner(&mut self, d: usize, pure_: bool) -> Expr {
         let vars = self.visible(|v| v.ty == Ty::Int && (!pure_ || !v.mutable));
         if d == 0 {
             if !vars.is_empty() && self.c.chance(3, 5) {
@@ -237,9 +250,10 @@ impl<'c> Gen<'c> {
             if o.errors { 2 } else { 0 },                       // 15 dead raising code
             3,                                                  // 16 higher-order: apply / fold over literal lists
             2,                                                  // 17 string / char consumers
-            if o.winds && !pure_ { 3 } else { 0 },              // 18 dynamic-wind
+            if o.winds && !pure_ { 9 } else { 0 },              // 18 dynamic-wind / control templates
             2,                                                  // 19 do loop
             2,                                                  // 20 hash consumers
+            if pure_ { 0 } else { 3 },                          // 21 assignment clusters
         ];
         match self.c.weighted(&w) {
             0 => self.int(0, pure_),
@@ -381,7 +395,13 @@ impl<'c> Gen<'c> {
                     _ => app("char->integer", vec![Expr::Lit(Datum::Char(['a', 'Z', '0', ' '][self.c.below(4)]))]),
                 }
             }
-            18 => self.dynamic_wind(d),
+            18 => {
+                if self.c.chance(3, 4) {
+                    self.control(d)
+                } else {
+                    self.dynamic_wind(d)
+                }
+            }
             19 => {
                 // (do ((i 0 (+ i 1)) (acc init (op acc i))) ((= i k) acc))
                 let k = self.c.range(0, 5);
@@ -401,6 +421,7 @@ impl<'c> Gen<'c> {
                     vec![],
                 )
             }
+            21 => self.set_cluster(d),
             _ => {
                 let h = self.hash(d - 1, pure_);
                 match self.c.below(3) {
@@ -792,6 +813,87 @@ impl<'c> Gen<'c> {
         }
     }
 
+    /// Clusters of assignments to literal-initialised locals: reader closures created before the
+    /// assignment, assignments nested in the right-hand side of another assignment, mutators
+    /// installed with set!.  (What a constant folder must not fold.)
+    fn set_cluster(&mut self, d: usize) -> Expr {
+        self.feat("set!");
+        self.feat("closure-over-assigned-variable");
+        self.feat("assignment-cluster");
+        let names = self.distinct_names(2);
+        let (a, b) = (names[0].clone(), names[1].clone());
+        let la = self.c.range(0, 12);
+        let lb = self.c.range(0, 12);
+        let k = self.c.range(1, 5);
+        let vars = vec![
+            VarInfo { name: a.clone(), ty: Ty::Int, mutable: true, global: false },
+            VarInfo { name: b.clone(), ty: Ty::Int, mutable: true, global: false },
+        ];
+        let ea = self.with_scope(vars.clone(), |g| g.int(d.min(2) - 1, true));
+        let ea = app("+", vec![ea, int(k)]);
+        match self.c.below(4) {
+            0 => {
+                // reader closure first, then (set! b (begin (set! a ..) ..)), then read both ways
+                Expr::Let(
+                    vec![(a.clone(), int(la)), (b.clone(), int(lb))],
+                    Box::new(Body::single(Expr::Let(
+                        vec![("rd".into(), lambda(&[], Body::single(app("+", vec![var(&a), app("*", vec![int(100), var(&b)])]))))],
+                        Box::new(Body {
+                            defs: vec![],
+                            exprs: vec![set(&b, begin(vec![set(&a, ea), int(k)])), app("+", vec![app("rd", vec![]), app("*", vec![int(10000), var(&a)])])],
+                        }),
+                    ))),
+                )
+            }
+            1 => {
+                // internal define reading a, nested assignment, then the call
+                Expr::Let(
+                    vec![(a.clone(), int(la)), (b.clone(), int(lb))],
+                    Box::new(Body {
+                        defs: vec![("show".into(), lambda(&[], Body::single(app("list", vec![var(&a), var(&b)]))))],
+                        exprs: vec![set(&b, begin(vec![set(&a, ea), int(k)])), app("apply", vec![var("+"), app("show", vec![])])],
+                    }),
+                )
+            }
+            2 => {
+                // mutator and reader installed with set!
+                Expr::Let(
+                    vec![(a.clone(), int(la)), ("peek".into(), boolean(false)), ("bump".into(), boolean(false))],
+                    Box::new(Body {
+                        defs: vec![],
+                        exprs: vec![
+                            set("peek", lambda(&[], Body::single(var(&a)))),
+                            set("bump", lambda(&[], Body { defs: vec![], exprs: vec![set(&a, app("+", vec![var(&a), int(k)])), var(&a)] })),
+                            app("bump", vec![]),
+                            app("bump", vec![]),
+                            app("+", vec![app("peek", vec![]), app("*", vec![int(1000), var(&a)])]),
+                        ],
+                    }),
+                )
+            }
+            _ => {
+                // a loop whose body reads a variable textually before an assignment nested in
+                // the value of another assignment
+                let n = self.c.range(1, 4);
+                Expr::Let(
+                    vec![(a.clone(), int(la.max(1))), (b.clone(), Expr::Quote(Datum::List(vec![])))],
+                    Box::new(Body::single(Expr::NamedLet(
+                        "loop".into(),
+                        vec![("i".into(), int(0))],
+                        Box::new(Body::single(iff(
+                            app("<", vec![var("i"), int(n)]),
+                            begin(vec![
+                                set(&b, app("cons", vec![var(&a), begin(vec![set(&a, app("*", vec![var(&a), int(2)])), var(&b)])])),
+                                app("loop", vec![app("+", vec![var("i"), int(1)])]),
+                            ]),
+                            app("apply", vec![var("+"), var(&b)]),
+                        ))),
+                    ))),
+                )
+            }
+        }
+    }
+
     fn cond_like(&mut self, d: usize, pure_: bool) -> Expr {
         match self.c.below(5) {
             0 => {
@@ -907,6 +1009,199 @@ impl<'c> Gen<'c> {
         Expr::CallCC(Box::new(Expr::Lambda(Box::new(LambdaDef { params: vec![kname], opt: vec![], rest: None, body }))))
     }
 
+    /// Control templates for C08: continuations stored in boxes and re-entered, dynamic-wind
+    /// crossed by escapes / re-entries / errors, handlers.  All state that must survive a
+    /// re-entry lives in boxes (DESIGN.md 2.3); every template terminates by a boxed countdown.
+    pub fn control(&mut self, d: usize) -> Expr {
+        let tag = self.c.range(0, 9);
+        let before = lambda(&[], Body::single(app("display", vec![string(&format!("<{}", tag))])));
+        let after = lambda(&[], Body::single(app("display", vec![string(&format!("{}>", tag))])));
+        let n = self.c.range(1, 3);
+        let step = self.c.range(1, 9);
+        match self.c.below(9) {
+            0 => {
+                // generator: the continuation of a let binding is re-entered n times
+                self.feat("continuation-reentry");
+                let inner = self.int(d.saturating_sub(2), true);
+                Expr::Let(
+                    vec![("kb".into(), app("box", vec![boolean(false)])), ("cnt".into(), app("box", vec![int(0)])), ("tr".into(), app("box", vec![Expr::Quote(Datum::List(vec![]))]))],
+                    Box::new(Body::single(Expr::Let(
+                        vec![("v".into(), Expr::CallCC(Box::new(lambda(&["k"], Body { defs: vec![], exprs: vec![app("set-box!", vec![var("kb"), var("k")]), inner]}))))],
+                        Box::new(Body {
+                            defs: vec![],
+                            exprs: vec![
+                                app("set-box!", vec![var("tr"), app("cons", vec![var("v"), app("unbox", vec![var("tr")])])]),
+                                iff(
+                                    app("<", vec![app("unbox", vec![var("cnt")]), int(n)]),
+                                    begin(vec![
+                                        app("set-box!", vec![var("cnt"), app("+", vec![app("unbox", vec![var("cnt")]), int(1)])]),
+                                        call(app("unbox", vec![var("kb")]), vec![app("+", vec![var("v"), int(step)])]),
+                                    ]),
+                                    app("apply", vec![var("+"), app("unbox", vec![var("tr")])]),
+                                ),
+                            ],
+                        }),
+                    ))),
+                )
+            }
+            1 => {
+                // capture in argument position: pending (+ 100 []) is resumed on every re-entry
+                self.feat("continuation-reentry");
+                self.feat("capture-in-argument-position");
+                Expr::Let(
+                    vec![("kb".into(), app("box", vec![boolean(false)])), ("cnt".into(), app("box", vec![int(0)]))],
+                    Box::new(Body::single(Expr::Let(
+                        vec![("r".into(), app("+", vec![int(100), Expr::CallCC(Box::new(lambda(&["k"], Body { defs: vec![], exprs: vec![app("set-box!", vec![var("kb"), var("k")]), int(1)] })))]))],
+                        Box::new(Body {
+                            defs: vec![],
+                            exprs: vec![
+                                app("display", vec![var("r")]),
+                                app("display", vec![string(" ")]),
+                                iff(
+                                    app("<", vec![app("unbox", vec![var("cnt")]), int(n)]),
+                                    begin(vec![
+                                        app("set-box!", vec![var("cnt"), app("+", vec![app("unbox", vec![var("cnt")]), int(1)])]),
+                                        call(app("unbox", vec![var("kb")]), vec![app("*", vec![int(step), app("unbox", vec![var("cnt")])])]),
+                                    ]),
+                                    var("r"),
+                                ),
+                            ],
+                        }),
+                    ))),
+                )
+            }
+            2 => {
+                // escape out of a dynamic-wind body
+                self.feat("dynamic-wind");
+                self.feat("escape-through-wind");
+                let v = self.int(d.saturating_sub(2), true);
+                Expr::CallCC(Box::new(lambda(
+                    &["k"],
+                    Body::single(Expr::DynamicWind(
+                        Box::new(before),
+                        Box::new(lambda(&[], Body { defs: vec![], exprs: vec![app("display", vec![string("body")]), call(var("k"), vec![v]), app("display", vec![string("not-reached")]), int(0)] })),
+                        Box::new(after),
+                    )),
+                )))
+            }
+            3 => {
+                // re-entry into a dynamic-wind body: before runs again
+                self.feat("dynamic-wind");
+                self.feat("reentry-into-wind");
+                self.feat("continuation-reentry");
+                Expr::Let(
+                    vec![("kb".into(), app("box", vec![boolean(false)])), ("cnt".into(), app("box", vec![int(0)]))],
+                    Box::new(Body {
+                        defs: vec![],
+                        exprs: vec![
+                            Expr::DynamicWind(
+                                Box::new(before),
+                                Box::new(lambda(&[], Body { defs: vec![], exprs: vec![Expr::CallCC(Box::new(lambda(&["k"], Body::single(app("set-box!", vec![var("kb"), var("k")]))))), app("display", vec![string("in")])] })),
+                                Box::new(after),
+                            ),
+                            iff(
+                                app("<", vec![app("unbox", vec![var("cnt")]), int(n)]),
+                                begin(vec![
+                                    app("set-box!", vec![var("cnt"), app("+", vec![app("unbox", vec![var("cnt")]), int(1)])]),
+                                    call(app("unbox", vec![var("kb")]), vec![int(0)]),
+                                ]),
+                                app("unbox", vec![var("cnt")]),
+                            ),
+                        ],
+                    }),
+                )
+            }
+            4 => {
+                // an error crosses a wind on its way to a handler
+                self.feat("dynamic-wind");
+                self.feat("with-handler");
+                self.feat("error-through-wind");
+                let hv = self.int(0, true);
+                let r = self.raising();
+                Expr::WithHandler(
+                    Box::new(lambda(&["e"], Body { defs: vec![], exprs: vec![app("display", vec![string("H")]), hv] })),
+                    Box::new(Expr::DynamicWind(
+                        Box::new(before),
+                        Box::new(lambda(&[], Body { defs: vec![], exprs: vec![app("display", vec![string("body")]), r, int(0)] })),
+                        Box::new(after),
+                    )),
+                )
+            }
+            5 => {
+                // normal return through nested winds
+                self.feat("dynamic-wind");
+                let v = self.int(d.saturating_sub(2), false);
+                let inner = Expr::DynamicWind(
+                    Box::new(lambda(&[], Body::single(app("display", vec![string("(")])))),
+                    Box::new(lambda(&[], Body::single(v))),
+                    Box::new(lambda(&[], Body::single(app("display", vec![string(")")])))),
+                );
+                Expr::DynamicWind(Box::new(before), Box::new(lambda(&[], Body::single(inner))), Box::new(after))
+            }
+            6 => {
+                // re-entry into a map callback: earlier returns of map are not mutated
+                self.feat("continuation-reentry");
+                self.feat("reentry-into-map");
+                Expr::Let(
+                    vec![("kb".into(), app("box", vec![boolean(false)])), ("cnt".into(), app("box", vec![int(0)]))],
+                    Box::new(Body::single(Expr::Let(
+                        vec![(
+                            "l".into(),
+                            app(
+                                "map",
+                                vec![
+                                    lambda(&["x"], Body::single(Expr::CallCC(Box::new(lambda(&["k"], Body { defs: vec![], exprs: vec![iff(app("=", vec![var("x"), int(2)]), app("set-box!", vec![var("kb"), var("k")]), var("void")), var("x")] }))))),
+                                    Expr::Quote(Datum::List(vec![Datum::Int(1), Datum::Int(2), Datum::Int(3)])),
+                                ],
+                            ),
+                        )],
+                        Box::new(Body::single(iff(
+                            app("<", vec![app("unbox", vec![var("cnt")]), int(n)]),
+                            begin(vec![
+                                app("set-box!", vec![var("cnt"), app("+", vec![app("unbox", vec![var("cnt")]), int(1)])]),
+                                call(app("unbox", vec![var("kb")]), vec![app("*", vec![int(10), app("unbox", vec![var("cnt")])])]),
+                            ]),
+                            app("apply", vec![var("+"), var("l")]),
+                        ))),
+                    ))),
+                )
+            }
+            7 => {
+                // handler value and nesting: inner handles, outer untouched
+                self.feat("with-handler");
+                self.feat("nested-handlers");
+                let r = self.raising();
+                let v = self.int(0, true);
+                Expr::WithHandler(
+                    Box::new(lambda(&["e"], Body { defs: vec![], exprs: vec![app("display", vec![string("outer")]), int(-1)] })),
+                    Box::new(app(
+                        "+",
+                        vec![
+                            int(1),
+                            Expr::WithHandler(Box::new(lambda(&["e"], Body { defs: vec![], exprs: vec![app("display", vec![string("inner")]), v] })), Box::new(begin(vec![r, int(0)]))),
+                        ],
+                    )),
+                )
+            }
+            _ => {
+                // escape from a deep non-tail recursion
+                self.feat("call/cc");
+                self.feat("escape-from-depth");
+                let depth = self.c.range(1, 6);
+                Expr::CallCC(Box::new(lambda(
+                    &["k"],
+                    Body::single(Expr::Letrec(
+                        vec![(
+                            "down".into(),
+                            lambda(&["i"], Body::single(iff(app("=", vec![var("i"), int(0)]), call(var("k"), vec![int(step)]), app("+", vec![int(1), app("down", vec![app("-", vec![var("i"), int(1)])])])))),
+                        )],
+                        Box::new(Body::single(app("down", vec![int(depth)]))),
+                    )),
+                )))
+            }
+        }
+    }
+
     fn dynamic_wind(&mut self, d: usize) -> Expr {
         self.feat("dynamic-wind");
         let tag = self.c.range(0, 9);
@@ -966,10 +1261,20 @@ impl<'c> Gen<'c> {
                         if recursive {
                             g.feat("recursive-define");
                             // (if (<= p0 0) base (combine (name (- p0 1) rest...)))
-                            let base = g.int(d.min(2), true);
+                            let mut base = g.int(d.min(2), true);
                             let mut rec_args = vec![app("-", vec![var(&params[0]), int(1)])];
                             for p in &params[1..] {
                                 rec_args.push(var(p));
+                            }
+                            if rest {
+                                // the rest list is observed, and the self call passes 0-2
+                                // surplus arguments (each count takes a different path in the
+                                // frame-reusing self tail call)
+                                base = app("+", vec![base, app("*", vec![int(100), app("length", vec![var("more")])]), app("apply", vec![var("+"), var("more")])]);
+                                for _ in 0..g.c.below(3) {
+                                    let e = g.int(1, true);
+                                    rec_args.push(e);
+                                }
                             }
                             let rec = app(&name, rec_args);
                             let tail = g.c.chance(1, 2);
@@ -996,6 +1301,11 @@ impl<'c> Gen<'c> {
                         let mut args = vec![int(self.c.range(0, 6))];
                         for _ in 1..np {
                             args.push(self.int(1, true));
+                        }
+                        if rest {
+                            for _ in 0..self.c.below(3) {
+                                args.push(self.int(0, true));
+                            }
                         }
                         forms.push(Top::Expr(app(&name, args)));
                     } else {
